@@ -435,12 +435,13 @@ func (w *world) callMods(kg *fgen, x ssa.CallInstruction, ms *modset) {
 						continue
 					}
 				}
-				for k := range keys {
+				for _, k := range sortedKeys(keys) {
 					other[k] = true
 				}
 			}
 			for _, keys := range locals {
-				for k, me := range keys {
+				for _, k := range sortedKeys(keys) {
+					me := keys[k]
 					if !other[k] && !tmp.coarse(k) {
 						delete(tmp.any, k)
 						tmp.fresh[k] = me
@@ -528,7 +529,8 @@ func (w *world) declMods(kg *fgen, fc *funcContract, out *modset) {
 		if ms.preserve == nil {
 			ms.preserve = map[string]bool{}
 		}
-		for k, e := range keys {
+		for _, k := range sortedKeys(keys) {
+			e := keys[k]
 			e.register(kg, k)
 			ms.preserve[k] = true
 			if out.preserveEntries == nil {
@@ -573,7 +575,8 @@ func (w *world) declMods(kg *fgen, fc *funcContract, out *modset) {
 			ms.why = err.Error()
 			return
 		}
-		for k, e := range keys {
+		for _, k := range sortedKeys(keys) {
+			e := keys[k]
 			ms.any[k] = e
 		}
 	}
